@@ -347,6 +347,13 @@ func runtimeInt(v ssa.Value) bool {
 		}
 		seen[v] = true
 		switch y := v.(type) {
+		case *ssa.Parameter:
+			// provider mode: the integer parameters of exported methods are supplied by the running program
+			// (CallMethod hands GlyphLang integers to them through reflection)
+			if bndParamSources && num(y.Type()) && y.Parent() != nil && y.Parent().Object() != nil && y.Parent().Object().Exported() && y.Parent().Signature.Recv() != nil {
+				return true
+			}
+			return false
 		case *ssa.TypeAssert:
 			return num(y.AssertedType)
 		case *ssa.Extract:
@@ -408,6 +415,9 @@ func runtimeInt(v ssa.Value) bool {
 
 // wideRuntimeInt also treats strconv results as run-time integers (exploration of other packages).
 var wideRuntimeInt = false
+
+// bndParamSources: integer parameters of exported methods count as run-time integers (provider packages).
+var bndParamSources = false
 
 type sliceSite struct {
 	fn   *ssa.Function
@@ -482,21 +492,42 @@ func sliceBoundsAudit(c *Ctx, rels []string) []sliceSite {
 					}
 					out = append(out, st)
 				case *ssa.MakeSlice:
-					if !runtimeInt(x.Len) {
-						return
-					}
-					st := sliceSite{fn: fn, ins: ins, what: "make", ok: true}
-					ln := stripIntConv(x.Len)
-					if bo, ok := ln.(*ssa.BinOp); ok && bo.Op == token.SUB {
-						if !e.le(term{v: bo.Y}, term{v: bo.X}, b, nil, 0) {
-							st.ok, st.why = false, "length a-b with b not proven <= a (negative length panics)"
+					for _, sz := range []struct {
+						v    ssa.Value
+						what string
+					}{{x.Len, "length"}, {x.Cap, "capacity"}} {
+						if sz.v == nil || !runtimeInt(sz.v) {
+							continue
 						}
-					} else if lenArg(ln) == nil {
-						if !e.le(term{v: zero(nil)}, term{v: ln}, b, nil, 0) {
-							st.ok, st.why = false, "length is not proven >= 0"
+						st := sliceSite{fn: fn, ins: ins, what: "make", ok: true}
+						ln := stripIntConv(sz.v)
+						// (a - b) + k with a constant k >= 0 is non-negative when b <= a
+						for {
+							bo, ok := ln.(*ssa.BinOp)
+							if !ok || bo.Op != token.ADD {
+								break
+							}
+							if k, isK := constInt(bo.Y); isK && k >= 0 {
+								ln = stripIntConv(bo.X)
+								continue
+							}
+							if k, isK := constInt(bo.X); isK && k >= 0 {
+								ln = stripIntConv(bo.Y)
+								continue
+							}
+							break
 						}
+						if bo, ok := ln.(*ssa.BinOp); ok && bo.Op == token.SUB {
+							if !e.le(term{v: bo.Y}, term{v: bo.X}, b, nil, 0) {
+								st.ok, st.why = false, sz.what+" a-b with b not proven <= a (a negative "+sz.what+" panics)"
+							}
+						} else if lenArg(ln) == nil {
+							if !e.le(term{v: zero(nil)}, term{v: ln}, b, nil, 0) {
+								st.ok, st.why = false, sz.what+" is not proven >= 0"
+							}
+						}
+						out = append(out, st)
 					}
-					out = append(out, st)
 				}
 			})
 		}
